@@ -27,7 +27,7 @@ from cpverif.oracles import rng_from
 from cpverif.runner import HarnessError, subcheck
 from props.c12 import build_map, build_normalizer, st_normalizer  # noqa: F401
 
-EXCLUDE_KNOWN = set()   # e.g. {"gga_expnt", "inh_mgga"}
+EXCLUDE_KNOWN = set()   # tags: "gga_expnt" (fixed in 878e562), "inh_mgga" (get_ueg ignores inh=1), "sdmx_j2" (j=2 constants)
 
 CFC_DOC = 0.3 * (3 * math.pi ** 2) ** (2.0 / 3)
 MGGA_MODES = ("nst", "npa")
@@ -216,7 +216,7 @@ def st_sl_case(draw):
             "rhos": draw(st.lists(st_rho(), min_size=1, max_size=4))}
 
 
-@subcheck("C13", "sl_ueg", st_sl_case, quick=600, thorough=12000,
+@subcheck("C13", "sl_ueg", st_sl_case, quick=800, thorough=12000,
           rule="all 4 semilocal modes x nspin 1/2 x 1-4 densities log-uniform in [1e-4,1e3]; SemilocalPlan.get_feat at "
                "(rho, grad 0, tau_0(rho)) per spin channel (channel density rho/nspin) and SemilocalSettings.ueg_vector "
                "both equal the documented values [n, 0, tau_0] / [n, 0, 1] (sl.rst) to 1e-12; non-trivial = rho != 1",
@@ -254,7 +254,7 @@ def st_nldf_case(draw):
     return {"nldf": draw(G.st_nldf()), "rho": draw(st_rho())}
 
 
-@subcheck("C13", "nldf_ueg", st_nldf_case, quick=900, thorough=20000,
+@subcheck("C13", "nldf_ueg", st_nldf_case, quick=1600, thorough=20000,
           rule="NLDFSettingsVI/VJ/VIJ/VK from G-settings (GGA and MGGA, rho_mult one/expnt, spec lists in any order with "
                "repeats, parameter tuples a0 in [0.5,8], multipliers in {0} U [0,0.1], erf_mul in [0.25,4]) x rho "
                "log-uniform [1e-4,1e3]; oracle: rho * b * int 4 pi r^2 K(r) dr by scipy.integrate.quad (1e-12) of the "
@@ -297,7 +297,7 @@ def st_sdmx_case(draw):
     return {"sdmx": draw(G.st_sdmx()), "rho": draw(st_rho())}
 
 
-@subcheck("C13", "sdmx_ueg", st_sdmx_case, quick=320, thorough=6000,
+@subcheck("C13", "sdmx_ueg", st_sdmx_case, quick=480, thorough=6000,
           rule="SDMXSettings/G/1/G1/Full and SADMSettings with pows from {0,1,2} (any order, repeats, int or float) and "
                "ratios {1,1.5,2} x rho log-uniform [1e-4,1e3]; oracle: Gauss-Legendre quadrature (two resolutions must "
                "agree to 1e-9, else harness error; cross-checked once against the k-space closed form) of the documented "
@@ -322,6 +322,9 @@ def sdmx_ueg(case, ctx):
         else:
             # a gross error first (own signature), then the sharp comparison
             ctx.close([g], [w], ("value_gross", jcls, spec["cls"]), rtol=5e-4, spec=spec, rho=n, label=label)
+            if jcls == "j2" and "sdmx_j2" in EXCLUDE_KNOWN:
+                ctx.event("excluded_known:sdmx_j2")
+                continue
             sig = ("value", "j2_constant") if jcls == "j2" else ("value", "j01", spec["cls"])
             ctx.close([g], [w], sig, rtol=1e-9, spec=spec, rho=n, label=label)
     if abs(n - 1) > 1e-3 and len(want):
@@ -334,7 +337,7 @@ def st_fl_case(draw):
     return {"fl": draw(G.st_fraclapl()), "rho": draw(st_rho())}
 
 
-@subcheck("C13", "fraclapl_ueg", st_fl_case, quick=300, thorough=6000,
+@subcheck("C13", "fraclapl_ueg", st_fl_case, quick=400, thorough=6000,
           rule="FracLaplSettings (1-4 powers s in [-1,2], all count/dot combinations) x rho; oracle for the nk0 scalar "
                "entries: (1/pi^2) int_0^kF k^(2+2s) dk by quad (plane waves are eigenfunctions of (-Delta)^s); l1/ld dot "
                "entries 0 by isotropy; the ndd entries are documented placeholders (TODO in the source) and are "
@@ -384,7 +387,7 @@ def st_norm_case(draw):
             "x": draw(st.floats(0.05, 3.0)) * draw(st.sampled_from([-1.0, 1.0]))}
 
 
-@subcheck("C13", "norm_ueg", st_norm_case, quick=1200, thorough=24000,
+@subcheck("C13", "norm_ueg", st_norm_case, quick=1600, thorough=24000,
           rule="the four normaliser classes and two factory functions (drawn constants, powers in [-2,2]) x the four "
                "semilocal modes x rho; oracle: get_ueg(rho) * x == fill_fwd(x, rho, inh_ueg) (1e-12) with inh_ueg = 1 in the "
                "meta-GGA modes (tau/tau_0) and 0 in the GGA modes (tau_W/tau_0), and the same through a one-element "
@@ -443,7 +446,7 @@ def st_list_case(draw):
             "nspin": draw(st.sampled_from([1, 2])), "ngrid": draw(st.integers(1, 3))}
 
 
-@subcheck("C13", "list_ueg", st_list_case, quick=1200, thorough=24000,
+@subcheck("C13", "list_ueg", st_list_case, quick=1600, thorough=24000,
           rule="FeatureSettings over all family combinations (semilocal mode x NLDF x FracLapl x SDMX) with default, "
                "recommended or drawn normaliser lists x rho x "
                "nspin x 1-3 grid points; oracles: ueg_vector(rho) is the concatenation of the family vectors and has nfeat "
@@ -489,10 +492,13 @@ def st_model_case(draw):
     return {"fs": fs, "rho": draw(st_rho()), "maps": maps, "nspin": draw(st.sampled_from([1, 2])),
             "mode": draw(st.sampled_from(["SEP", "NPOL"])), "evaluator": draw(st.sampled_from(["linear", "rbf", "linear+rbf"])),
             "mul": draw(st.sampled_from(["LDA_X", "ONE", "GGA_X_PBE"])), "add": draw(st.sampled_from(["ZERO", "LDA_X", "GGA_X_PBE"])),
-            "api": draw(st.sampled_from([1, 2])), "seed": draw(st.integers(0, 2 ** 31 - 1)), "ngrid": draw(st.integers(1, 3))}
+            "api": draw(st.sampled_from([1, 2])), "seed": draw(st.integers(0, 2 ** 31 - 1)),
+            # 2 grid points are left out: with nspin = 1 MappedDFTKernel.apply_descriptor_grad mistakes a 2-sample batch for a
+            # polarised array (ValueError in SEP mode) -- reported separately, C04/C09's domain
+            "ngrid": draw(st.sampled_from([1, 3, 4]))}
 
 
-@subcheck("C13", "model_baseline", st_model_case, quick=700, thorough=14000,
+@subcheck("C13", "model_baseline", st_model_case, quick=900, thorough=14000,
           rule="FeatureSettings (>= 1 nonlocal family, any normalisers) + a FeatureList of 1-6 VMaps over drawn normalised "
                "features, each centred with scale*get_vmap_heg_value(ueg_vector(rho, True)[i], gamma); evaluators "
                "GlobalLinear / RBF / both; MappedXC (native baselines) or MappedXC2 (libxc baselines), mode SEP/NPOL, nspin "
